@@ -16,7 +16,7 @@ Ev == Cl.events[l]
 Verdict(cs) == IF cs = {} THEN bad ELSE bad \cup {[id |-> T.id, c |-> cs]}
 TInit == Init /\ tid = 1 /\ k = 1 /\ l = 0 /\ half = 0 /\ bad = {}
 Fresh == /\ pglobal' = Unset /\ call' = NoCall /\ wglobal' = [w \in Workers |-> Unset]
-         /\ wstate' = [w \in Workers |-> St("gone")] /\ queue' = <<>> /\ results' = <<>> /\ ncalls' = 0 /\ out' = <<>>
+         /\ wstate' = [w \in Workers |-> St("gone")] /\ nextIdx' = NMazes + 1 /\ results' = [i \in Idx |-> Unset] /\ ncalls' = 0 /\ out' = <<>>
 Live == tid <= Len(Log)
 TStart == /\ Live /\ l = 0 /\ call = NoCall
           /\ IF Cl.mode = "serial" THEN StartSerial(Cl.cfg) ELSE StartParallel(Cl.cfg, Cl.W)
@@ -25,13 +25,13 @@ TStart == /\ Live /\ l = 0 /\ call = NoCall
 TSerialInit == /\ Live /\ l >= 1 /\ l <= Len(Cl.events) /\ Cl.mode = "serial" /\ Ev.ev = "init" /\ Ev.g = pglobal
                /\ l' = l + 1 /\ UNCHANGED <<dvars, tid, k, half, bad>>
 TSerialTask == /\ Live /\ l >= 1 /\ l <= Len(Cl.events) /\ Cl.mode = "serial" /\ Ev.ev = "task" /\ Ev.w = 0
-               /\ queue # <<>> /\ Head(queue) = Ev.idx /\ SerialItem /\ results'[Ev.idx] = Ev.g
+               /\ nextIdx <= NMazes /\ nextIdx = Ev.idx /\ SerialItem /\ results'[Ev.idx] = Ev.g
                /\ l' = l + 1 /\ UNCHANGED <<tid, k, half, bad>>
 TWorkerInit == /\ Live /\ l >= 1 /\ l <= Len(Cl.events) /\ Cl.mode = "pool" /\ Ev.ev = "init" /\ Ev.w \in Workers
                /\ WorkerInit(Ev.w) /\ wglobal'[Ev.w] = Ev.g
                /\ l' = l + 1 /\ UNCHANGED <<tid, k, half, bad>>
 TTake == /\ Live /\ l >= 1 /\ l <= Len(Cl.events) /\ Cl.mode = "pool" /\ Ev.ev = "task" /\ half = 0 /\ Ev.w \in Workers
-         /\ queue # <<>> /\ Head(queue) = Ev.idx /\ Take(Ev.w)
+         /\ nextIdx <= NMazes /\ nextIdx = Ev.idx /\ Take(Ev.w)
          /\ half' = 1 /\ UNCHANGED <<tid, k, l, bad>>
 TFinish == /\ Live /\ l >= 1 /\ l <= Len(Cl.events) /\ Cl.mode = "pool" /\ half = 1
            /\ FinishTask(Ev.w) /\ results'[Ev.idx] = Ev.g
